@@ -2174,6 +2174,14 @@ void mmd_export_token_latex_raw(DString * out, const char * source, token * t, s
 
 
 void mmd_export_token_tree_latex_raw(DString * out, const char * source, token * t, scratch_pad * scratch) {
+
+	// Prevent stack overflow with "dangerous" input causing extreme recursion
+	if (scratch->recurse_depth == kMaxExportRecursiveDepth) {
+		return;
+	}
+
+	scratch->recurse_depth++;
+
 	while (t != NULL) {
 		if (scratch->skip_token) {
 			scratch->skip_token--;
@@ -2183,6 +2191,8 @@ void mmd_export_token_tree_latex_raw(DString * out, const char * source, token *
 
 		t = t->next;
 	}
+
+	scratch->recurse_depth--;
 }
 
 
@@ -2397,6 +2407,14 @@ void mmd_export_token_latex_tt(DString * out, const char * source, token * t, sc
 
 
 void mmd_export_token_tree_latex_tt(DString * out, const char * source, token * t, scratch_pad * scratch) {
+
+	// Prevent stack overflow with "dangerous" input causing extreme recursion
+	if (scratch->recurse_depth == kMaxExportRecursiveDepth) {
+		return;
+	}
+
+	scratch->recurse_depth++;
+
 	while (t != NULL) {
 		if (scratch->skip_token) {
 			scratch->skip_token--;
@@ -2406,6 +2424,8 @@ void mmd_export_token_tree_latex_tt(DString * out, const char * source, token * 
 
 		t = t->next;
 	}
+
+	scratch->recurse_depth--;
 }
 
 int clean_text_sort(fn_holder * a, fn_holder * b) {
